@@ -109,10 +109,41 @@ func runC09(a *A) {
 				}
 				return ""
 			}}
-		a.OnlyIf(fname(g)+"#fire-threshold", g.Pos(), "a batch is delivered only when the key's buffered count reached the threshold", spec,
-			g.Blocks[0], nil, nil,
-			func(in ssa.Instruction, w *Walker) bool { return isDelivery(in, w.Term) && !literalWindow(in) },
-			func(r map[string]int, _ map[string]bool) bool { return r["c"] >= r["N"] })
+		// the per-row step may live in a frame of its own that holds the lock for its duration and hands the cut
+		// batch back (`if data := cw.addRow(row); data != nil { deliver(data) }`, a helper unknown to the inventory
+		// that defers the unlock): then the batch is *made* only under count >= threshold in that frame, every
+		// non-nil value it returns is such a batch, and the goroutine delivers only a non-nil result of it
+		host, hostCall, batches := countingHost(a, g, isDelivery)
+		if host != nil {
+			a.OnlyIf(fname(g)+"#fire-threshold", g.Pos(), "a batch is made (in "+host.Name()+") only when the key's buffered count reached the threshold", spec,
+				host.Blocks[0], nil, nil,
+				func(in ssa.Instruction, w *Walker) bool {
+					v, isV := in.(ssa.Value)
+					return isV && batches[v]
+				},
+				func(r map[string]int, _ map[string]bool) bool { return r["c"] >= r["N"] })
+			allInstrs(g, func(in ssa.Instruction) {
+				if !isDelivery(in, func(v ssa.Value) *Term { return TermOf(v, nil) }) || literalWindow(in) {
+					return
+				}
+				c := in.(*ssa.Call)
+				arg := c.Call.Args[len(c.Call.Args)-1]
+				fromHost := false
+				for _, l := range phiLeaves(arg) {
+					if l == ssa.Value(hostCall) {
+						fromHost = true
+					}
+				}
+				okNil := guardedNil(in.Block(), func(x ssa.Value) bool { return x == ssa.Value(hostCall) }, false)
+				a.Check(fromHost && okNil, fname(g)+"#delivers-what-the-frame-cut", in.Pos(), "the goroutine delivers the non-nil result of "+host.Name(),
+					"a delivery in the consumer goroutine is not the non-nil result of "+host.Name()+": a partial or empty batch could be delivered")
+			})
+		} else {
+			a.OnlyIf(fname(g)+"#fire-threshold", g.Pos(), "a batch is delivered only when the key's buffered count reached the threshold", spec,
+				g.Blocks[0], nil, nil,
+				func(in ssa.Instruction, w *Walker) bool { return isDelivery(in, w.Term) && !literalWindow(in) },
+				func(r map[string]int, _ map[string]bool) bool { return r["c"] >= r["N"] })
+		}
 		// the count is len(buffer after appending this row)
 		n := 0
 		scanHosts(a, g, func(in ssa.Instruction) {
@@ -182,6 +213,20 @@ func runC09(a *A) {
 					if any {
 						continue
 					}
+				}
+			}
+			if c, ok := d.(*ssa.Call); ok && c.Call.StaticCallee() != nil && c.Call.StaticCallee().Pkg == g.Pkg && c.Call.StaticCallee().Blocks != nil && !c.Call.IsInvoke() {
+				// a batch handed back as the only result of a helper (nil: nothing to deliver)
+				any := false
+				for _, l := range returnLeaves(c.Call.StaticCallee(), 0) {
+					if isNilConst(l) {
+						continue
+					}
+					resolved = append(resolved, l)
+					any = true
+				}
+				if any {
+					continue
 				}
 			}
 			if _, isPhi := d.(*ssa.Phi); isPhi {
@@ -379,4 +424,72 @@ func scanHosts(a *A, g *ssa.Function, f func(ssa.Instruction)) {
 	for _, h := range a.helpersOf(g) {
 		allInstrs(h, f)
 	}
+}
+
+
+// returnLeaves: the values result k of fn can be (through phis and through the locals go/ssa spills results into
+// when the function defers).
+func returnLeaves(fn *ssa.Function, k int) []ssa.Value {
+	var out []ssa.Value
+	seen := map[ssa.Value]bool{}
+	for _, b := range fn.Blocks {
+		ret, ok := b.Instrs[len(b.Instrs)-1].(*ssa.Return)
+		if !ok || b == fn.Recover || k >= len(ret.Results) {
+			continue
+		}
+		r := ret.Results[k]
+		if ld, isLd := r.(*ssa.UnOp); isLd && ld.Op == token.MUL {
+			if al, isAl := ld.X.(*ssa.Alloc); isAl {
+				for _, ref := range *al.Referrers() {
+					if st, isSt := ref.(*ssa.Store); isSt && st.Addr == ssa.Value(al) {
+						for _, l := range phiLeaves(st.Val) {
+							if !seen[l] {
+								seen[l] = true
+								out = append(out, l)
+							}
+						}
+					}
+				}
+				continue
+			}
+		}
+		for _, l := range phiLeaves(r) {
+			if !seen[l] {
+				seen[l] = true
+				out = append(out, l)
+			}
+		}
+	}
+	return out
+}
+
+// countingHost: the frame of the counting window's per-row step when it is not the consumer goroutine itself: a
+// helper unknown to the inventory, called from g, whose single slice result g delivers. Returns the helper, the call
+// and the set of non-nil values the helper can return.
+func countingHost(a *A, g *ssa.Function, isDelivery func(ssa.Instruction, func(ssa.Value) *Term) bool) (*ssa.Function, *ssa.Call, map[ssa.Value]bool) {
+	var host *ssa.Function
+	var hostCall *ssa.Call
+	allInstrs(g, func(in ssa.Instruction) {
+		if !isDelivery(in, func(v ssa.Value) *Term { return TermOf(v, nil) }) {
+			return
+		}
+		c := in.(*ssa.Call)
+		for _, l := range phiLeaves(c.Call.Args[len(c.Call.Args)-1]) {
+			if hc, ok := l.(*ssa.Call); ok {
+				if h := hc.Call.StaticCallee(); h != nil && isNewFunc(h) && h.Signature.Results().Len() == 1 {
+					host, hostCall = h, hc
+				}
+			}
+		}
+	})
+	if host == nil {
+		return nil, nil, nil
+	}
+	batches := map[ssa.Value]bool{}
+	for _, l := range returnLeaves(host, 0) {
+		if !isNilConst(l) {
+			batches[l] = true
+		}
+	}
+	return host, hostCall, batches
 }
